@@ -52,4 +52,30 @@ add("C03", "c_updates",
     note="Crash model: the process stops between two recorded events; storage writes are atomic (the StateStorage contract).",
     assumptions=["storage writes are individually atomic", "restart uses the same (finite, fully published) server log"])
 
+
+add("C24", "c_rpc",
+    [T("TestC24", 20000, 150000, env=BUBBLE)],
+    pre=["TestC24Regression"],
+    rule="owned schedules over the real rpc.Engine in a synctest bubble: 1..3 concurrent Do calls; drawn actions start/ack/valid result/undecodable result/rpc error/duplicate/foreign result/cancel/ForceClose/retry-interval tick/release of a goroutine parked at a scheduling point (rpc: after handler lookup in NotifyResult/NotifyError, before Output.Decode, before Do's final select, before drop; harness: inside Decode); which points park is drawn per case. non-trivial = a result is delivered while its call races with cancel/close, or a duplicate/foreign/late result occurs; distinct by action list",
+    technique="stateful PBT with an owned schedule (rapid-drawn choices over build-tagged scheduling points, testing/synctest) + history oracle over one totally ordered event log",
+    text="Every Do returns exactly once with an outcome that a delivered event explains; its Output sees at most one decode, only bytes naming its own id, and no decode start or end after Do returned. Schedules are sampled at hook-point granularity.",
+    note="Preemption is modelled only at the hook points; the harness send/drop/recorder are the environment. Trusts testing/synctest for quiescence.",
+    assumptions=["hook-point granularity: a race needing a preemption between two statements with no point in between is out of reach"])
+
+add("C25", "c_rpc",
+    [T("TestC25", 20000, 150000, env=BUBBLE)],
+    rule="retry interval in {1,3,10}s, max retries 1..6, optional send failure on the k-th transmission, script of <=3 events (ack, duplicate ack, result, cancel) at instants 1ns after a timer instant, 1ns before the next one, or in between; reference model predicts the exact transmission instants and the outcome. non-trivial = at least one retransmission; distinct by parameters+script",
+    technique="PBT against a complete reference model on virtual time (rapid + testing/synctest)",
+    text="Transmissions logged by the harness send function must equal the model's instants exactly, all with the same msg id/seq no/body, at most 1+maxRetries, none after an ack/result, and the call's outcome (success, cancel, send failure, RetryLimitReachedErr at maxRetries*interval) must match.",
+    note="Events never coincide exactly with a timer instant (the order would be unspecified).",
+    assumptions=["clock.System inside the bubble is the virtual clock"])
+
+add("C26", "c_rpc",
+    [T("TestC26", 20000, 150000, env=BUBBLE)],
+    rule="same machine as C24; after ForceClose all parked goroutines are released and every pending Do and ForceClose itself must have returned with no virtual time elapsed; classification oracle: sent+never acked => errors.Is(err, rpc.ErrEngineClosed) (what pool/telegram treat as retryable), ack delivered before close => non-nil error that is not ErrEngineClosed, started after close => ErrEngineClosed; drop handler called exactly once iff Do returned the caller's context error and the first send had returned nil. non-trivial = close/cancel between send and ack, between ack and result, or while send is blocked; distinct by action list",
+    technique="stateful PBT with an owned schedule (rapid + synctest + scheduling points), promptness watchdog on virtual time",
+    text="Sampled schedules; promptness is asserted as 'zero virtual time after releasing all scheduling points'; retryability is asserted against the predicate pool.errRetryableOnNewConn/telegram.errRetryableOnNewConn use (errors.Is ErrEngineClosed).",
+    note="A send that is blocked when the engine closes is ended by the harness (the connection closes with the engine in mtproto.Conn); such calls are excluded from the classification oracle.",
+    assumptions=["send returns when its context ends or the connection is closed"])
+
 NOT_CLAIMED = {}
